@@ -30,10 +30,10 @@ Lost == \E p \in out : out' = out \ {p}
         /\ q' = Event(q, Base("packet_lost", "cli") @@ [ty |-> "1RTT", pn |-> p, has_header |-> TRUE])
         /\ UNCHANGED <<conn, nextPn, snd, rcv>>
 SendSide == \E n \in SendNext(snd) : n # snd /\ snd' = n
-            /\ q' = Event(q, Base("stream_state_updated", "cli") @@ [sid |-> 0, sside |-> "sending", new |-> n, old |-> snd])
+            /\ q' = Event(q, Base("stream_state_updated", "cli") @@ [sid |-> 0, stype |-> "bidirectional", sside |-> "sending", new |-> n, old |-> snd])
             /\ UNCHANGED <<conn, nextPn, out, rcv>>
 RecvSide == \E n \in RecvNext(rcv) : n # rcv /\ rcv' = n
-            /\ q' = Event(q, Base("stream_state_updated", "cli") @@ [sid |-> 0, sside |-> "receiving", new |-> n, old |-> rcv])
+            /\ q' = Event(q, Base("stream_state_updated", "cli") @@ [sid |-> 0, stype |-> "bidirectional", sside |-> "receiving", new |-> n, old |-> rcv])
             /\ UNCHANGED <<conn, nextPn, out, snd>>
 MCNext == ConnStep \/ Send \/ Acked \/ Lost \/ SendSide \/ RecvSide
 View == <<conn, nextPn, out, snd, rcv, q.ok>>
